@@ -237,19 +237,19 @@ func (tr *Tr) havocMods(st, pre *State, mods map[string]modInfo) {
 		st.vars[name] = Sc{T: sym}
 		if !mi.mutates {
 			// allocation-only effect: pre-existing objects keep their contents
-			tr.sc.fact(fmt.Sprintf("(forall ((r Int)) (! (=> (< r %s) (= (select %s r) (select %s r))) :pattern ((select %s r))))", pre.top, sym, oldT, sym))
+			tr.sc.factLocal(fmt.Sprintf("(forall ((r Int)) (! (=> (< r %s) (= (select %s r) (select %s r))) :pattern ((select %s r))))", pre.top, sym, oldT, sym))
 			tr.allocParent[sym] = oldT
 		}
 		anyAlloc = true
 	}
 	if anyAlloc || len(mods) > 0 {
 		nt := tr.freshSym("top", false)
-		tr.sc.fact(sLe(pre.top, nt))
+		tr.sc.factLocal(sLe(pre.top, nt))
 		st.top = nt
 		for name, mi := range mods {
 			if mi.sort != "" {
 				tr.symTop[st.vars[name].(Sc).T] = nt
-				tr.heapVersionAxiom(name, st.vars[name].(Sc).T, mi.sort, nt)
+				tr.heapVersionAxiom(name, st.vars[name].(Sc).T, mi.sort, nt, true)
 			}
 		}
 	}
@@ -805,12 +805,12 @@ func (tr *Tr) iterateCall(fr *Frame, key string, fc *FuncContract, f *ssa.Functi
 		}
 	}
 	nt := tr.freshSym("top", false)
-	tr.sc.fact(sLe(st.top, nt))
+	tr.sc.factLocal(sLe(st.top, nt))
 	hst.top = nt
 	for name, mi := range mods {
 		if mi.sort != "" {
 			tr.symTop[hst.vars[name].(Sc).T] = nt
-			tr.heapVersionAxiom(name, hst.vars[name].(Sc).T, mi.sort, nt)
+			tr.heapVersionAxiom(name, hst.vars[name].(Sc).T, mi.sort, nt, true)
 		}
 	}
 	it := tr.freshSym("it", false)
